@@ -286,7 +286,7 @@ example : x86Code false X86State.init 0#32 [0xE8, 0xE8, 0x05, 0x00, 0x01, 0x00, 
 
 /-- **Chunk stability of the main loop**: one pass over `a ++ b` = a pass over `a`, then a pass at the position and with the
     `prev_mask`/`prev_pos` state where the first one stopped, over (its unprocessed tail) ++ `b`. -/
-theorem x86_chunk_stable_partial (e : Bool) (pc : BitVec 32) (st : X86State) (a b : List UInt8) :
+theorem x86_chunk_stable_loop (e : Bool) (pc : BitVec 32) (st : X86State) (a b : List UInt8) :
     x86Go e pc st (a ++ b) =
       ((x86Go e pc st a).1.take (x86Go e pc st a).2.1
           ++ (x86Go e (pc + BitVec.ofNat 32 (x86Go e pc st a).2.1) (x86Go e pc st a).2.2 ((x86Go e pc st a).1.drop (x86Go e pc st a).2.1 ++ b)).1,
@@ -295,15 +295,19 @@ theorem x86_chunk_stable_partial (e : Bool) (pc : BitVec 32) (st : X86State) (a 
        (x86Go e (pc + BitVec.ofNat 32 (x86Go e pc st a).2.1) (x86Go e pc st a).2.2 ((x86Go e pc st a).1.drop (x86Go e pc st a).2.1 ++ b)).2.2) :=
   x86Go_chunk e a.length a b pc st (Nat.le_refl _)
 
-/-- Full statement for `x86_code` itself (not proved): a second *call* re-clamps `prev_pos` to `now_pos - 5` and skips buffers shorter
-    than 5 bytes, so bytes and counts agree with the single call while the final `prev_pos` may differ by an equivalent value
-    (> 5 bytes back either way). What is missing is the lemma that two states with equal virtual masks at all later positions
-    yield equal bytes; the byte-exact correspondence under arbitrary slicing (stage K, `codeseq`/`stream` ops) covers it. -/
-def x86_chunk_stable_statement : Prop :=
-  ∀ (e : Bool) (st : X86State) (off : BitVec 32) (a b : List UInt8), (a ++ b).length + 5 < 2 ^ 32 →
-    let r1 := x86Code e st off a
-    let r2 := x86Code e r1.2.2 (off + BitVec.ofNat 32 r1.2.1) (r1.1.drop r1.2.1 ++ b)
-    (x86Code e st off (a ++ b)).1 = r1.1.take r1.2.1 ++ r2.1 ∧ (x86Code e st off (a ++ b)).2.1 = r1.2.1 + r2.2.1
+/-- **Chunk stability of `x86_code` itself**: the second *call* re-clamps `prev_pos` to `now_pos - 5` and leaves buffers shorter than five
+    bytes alone; neither changes a byte or a count (the final `prev_pos` may be a different but equivalent value, more than 5 bytes back
+    either way). For buffers below 4 GiB. -/
+theorem x86_chunk_stable (e : Bool) (st : X86State) (off : BitVec 32) (a b : List UInt8) (hlen : (a ++ b).length + 5 < 2 ^ 32) :
+    (x86Code e st off (a ++ b)).1 =
+        (x86Code e st off a).1.take (x86Code e st off a).2.1
+          ++ (x86Code e (x86Code e st off a).2.2 (off + BitVec.ofNat 32 (x86Code e st off a).2.1)
+                ((x86Code e st off a).1.drop (x86Code e st off a).2.1 ++ b)).1
+    ∧ (x86Code e st off (a ++ b)).2.1 =
+        (x86Code e st off a).2.1
+          + (x86Code e (x86Code e st off a).2.2 (off + BitVec.ofNat 32 (x86Code e st off a).2.1)
+                ((x86Code e st off a).1.drop (x86Code e st off a).2.1 ++ b)).2.1 :=
+  x86Code_chunk e st off a b hlen
 
 /-! ## RISC-V -/
 
